@@ -251,6 +251,7 @@ def run(fx, chk, tier):
         chk.require(got == want.get(key), "R1", "code|" + key, "%s -> %s '%s'" % (key, bt, got), "metadata key %s is stored under item code %r (%s); iTunes uses %r" % (key, got, bt, want.get(key)), site_of(fw))
     # ---- accessor table
     acc = {}
+    have_item_helpers = any(f_["name"].startswith("item_to_") and f_["kind"] == "Fn" for f_ in fx.fns.values())
     for name in ("title", "year", "poster", "summary"):
         f = fx.impl_fn("IlstBox", "Metadata<'a>", name)
         if not chk.anchor("R1", "Metadata::%s for IlstBox" % name, f):
@@ -278,8 +279,13 @@ def run(fx, chk, tier):
                         cs.add(g_)
             if len(ks) == 1 and len(cs) == 1:
                 acc[name] = (sorted(ks)[0], sorted(cs)[0])
+            elif len(ks) == 1 and not cs and not have_item_helpers:
+                # the conversion helpers of today's tree do not exist (inlined or reorganised): the key is what R1 decides
+                acc[name] = (sorted(ks)[0], None)
     wantacc = {"title": ("Title", "item_to_str"), "year": ("Year", "item_to_u32"), "poster": ("Poster", "item_to_bytes"), "summary": ("Summary", "item_to_str")}
     for name, w in wantacc.items():
+        if not have_item_helpers:
+            w = (w[0], None)
         chk.require(acc.get(name) == w, "R1", "accessor|" + name, "%s() = items[%s] via %s" % (name, w[0], w[1]), "Metadata::%s reads %s" % (name, acc.get(name)), site_of(fr))
 
     # ---------------- R2
@@ -379,7 +385,34 @@ def run(fx, chk, tier):
     fy = [f for f in fx.fns.values() if f["name"] == "item_to_u32" and f["kind"] == "Fn"]
     fb = [f for f in fx.fns.values() if f["name"] == "item_to_bytes" and f["kind"] == "Fn"]
     fs = [f for f in fx.fns.values() if f["name"] == "item_to_str" and f["kind"] == "Fn"]
-    if chk.anchor("R4", "item_to_u32 / item_to_bytes / item_to_str", fy and fb and fs):
+    if not (fy or fb or fs):
+        # the three private conversion helpers are gone (a reorganised accessor layer): the value-level reading of R4 has
+        # nothing to evaluate; what remains decidable is that the year accessor's closure still has both branches
+        from callgraph import callgraph as _cg
+        fyr = fx.impl_fn("IlstBox", "Metadata<'a>", "year")
+        if chk.anchor("R4", "Metadata::year for IlstBox", fyr):
+            names, variants = set(), set()
+            for fid_ in _cg(fx).closure([fyr["id"]]):
+                g_ = fx.fns.get(fid_)
+                if g_ is None or g_.get("hir") is None:
+                    continue
+                for m, _ in hirq.walk(hirq.body_root(g_)):
+                    if m.get("k") in ("call", "mcall"):
+                        names.add(last(m.get("resolved") or m.get("fn") or m.get("m") or ""))
+                        names.add(m.get("m") or "")
+                    if m.get("k") == "path" and "DataType::" in (m.get("def") or ""):
+                        variants.add(last(m.get("def")))
+                    elif m.get("k") == "path" and m.get("res") != "local" and m.get("def"):
+                        names.add(last(m.get("def")))      # a function handed to a combinator (`.map(u32::from_be_bytes)`)
+                    for p_ in ([a_["pat"] for a_ in m.get("arms", [])] if m.get("k") == "match" else []):
+                        for q_, _ in hirq.walk(p_):
+                            if "DataType::" in (q_.get("def") or ""):
+                                variants.add(last(q_.get("def")))
+            be = {"read_u32", "from_be_bytes"} & names
+            chk.require(bool(be) and "Binary" in variants, "R4", "year|binary", "a Binary branch with a big-endian u32 decode (%s)" % sorted(be), "the year accessor has no big-endian u32 branch for binary data", site_of(fyr))
+            chk.require("parse" in names and "Text" in variants, "R4", "year|text", "a Text branch with a decimal parse", "the year accessor has no `Text => parse` branch", site_of(fyr))
+            chk.note("R4: the conversion helpers item_to_u32 / item_to_bytes / item_to_str do not exist in this tree; only the presence of both year branches is decided")
+    elif chk.anchor("R4", "item_to_u32 / item_to_bytes / item_to_str", fy and fb and fs):
         import sval
         payload = ("param", "item.data.data")
 
